@@ -16,6 +16,10 @@ Case language (one command per line; the same lines are parsed by harness/c14/c1
   react <tok>,<tok>,...     scripted reactions of this user's receive_snoop (LPC), one per call: e echo the text to itself,
                             t<j> tell user j, d<j> destruct user j, x raise an error, n nothing.  After the first `react`
                             every write prints the state of every user.
+  input <hex>               the peer of a PORT_TELNET user sends these bytes; one poll + process_io pass: get_user_data ->
+                            copy_chars (telnet decoder) -> negotiation replies through add_message / flush_message, then the
+                            user's write-ready event; other users: their write-ready events.  A plain pass for other kinds of
+                            user, closed users and in cases that script reactions.
   (wbeg/wend come from the add_message hook of src/comm.c, `close` from the interposed close())
 
 Trace lines:
@@ -68,9 +72,18 @@ class C14(Prop):
                 "NV.C14.thrFull_eq", "NV.C14.thrLF_eq", "NV.C14.keepsData_eq", "NV.C14.keepsData_pipe",
                 "NV.C14.LF_CR_values"]
     consts = [("messageBufSize", "MESSAGE_BUF_SIZE"), ("eWouldBlock", "EWOULDBLOCK"), ("eIntr", "EINTR"),
-              ("ePipe", "EPIPE")]
+              ("ePipe", "EPIPE"),
+              # telnet decoder (copy_chars): protocol bytes and option numbers
+              ("tnIAC", "IAC"), ("tnDO", "DO"), ("tnDONT", "DONT"), ("tnWILL", "WILL"), ("tnWONT", "WONT"), ("tnSB", "SB"),
+              ("tnSE", "SE"), ("tnBREAK", "BREAK"), ("tnIP", "IP"), ("tnAYT", "AYT"), ("tnAO", "AO"),
+              ("optSGA", "TELOPT_SGA"), ("optTM", "TELOPT_TM"), ("optTTYPE", "TELOPT_TTYPE"), ("optNAWS", "TELOPT_NAWS"),
+              ("optLINEMODE", "TELOPT_LINEMODE"), ("lmMODE", "LM_MODE"), ("lmSLC", "LM_SLC"), ("modeACK", "MODE_ACK"),
+              ("modeEDIT", "MODE_EDIT"), ("modeTRAPSIG", "MODE_TRAPSIG"), ("slcACK", "SLC_ACK"),
+              ("slcNOSUPPORT", "SLC_NOSUPPORT"), ("slcLEVELBITS", "SLC_LEVELBITS"), ("slcDEFAULT", "SLC_DEFAULT"),
+              ("slcVARIABLE", "SLC_VARIABLE"), ("slcCANTCHANGE", "SLC_CANTCHANGE"), ("nSLC", "NSLC"),
+              ("sbSize", "SB_SIZE")]
     const_headers = ["src/comm.h"]
-    const_prelude = "#include <errno.h>"
+    const_prelude = "#include <errno.h>\n#include <arpa/telnet.h>"
     quick_n = 250
     thorough_n = 3000
     search_n = 800
@@ -134,7 +147,12 @@ class C14(Prop):
                 raise X.TieBroken("guard:flush_message.errno", "errno name %s of flush_message is not a constant" % name)
         sites = T.shape_checks(lambda rel: open(os.path.join(E.REPO, rel), errors="replace").read())
         self.shape_sites = sites
-        return T.extract(src, errno_value) + "\n\n-- control-flow shapes checked against the source on this run (props/c14_extract.py SHAPES):\n-- " \
+        cfg = open(os.path.join(bdir, "config.h"), errors="replace").read()
+        pk = re.search(r'#define PACKAGE "([^"]*)"', cfg)
+        ve = re.search(r'#define VERSION "([^"]*)"', cfg)
+        if not pk or not ve:
+            raise X.TieBroken("guard:config.PACKAGE", "PACKAGE / VERSION not found in the generated config.h")
+        return T.extract(src, errno_value, (pk.group(1), ve.group(1))) + "\n\n-- control-flow shapes checked against the source on this run (props/c14_extract.py SHAPES):\n-- " \
             + "\n-- ".join(sites)
 
     def prepare(self, ctx):
@@ -268,6 +286,47 @@ class C14(Prop):
         mk("peerfin-serves-others", ["@2 sendres W", "@2 " + w(b"pending\n"), "@2 flush", "@1 peerfin", "@2 dump"])
         mk("peerclose-serves-others", ["@2 sendres W", "@2 " + w(b"pending\n"), "@2 flush", "sendres W", w(b"mine\n"),
                                        "sendres 2,P", "@1 peerclose", "@2 dump"])
+        # (A) short newline-free texts (prompts, telnet sequences) straddling the physical end of the ring
+        for r in (N - 1, N - 2, N - 5, N - 30):
+            for ln in (2, 6, 40):
+                mk("straddle-r%d-l%d" % (r, ln), [w(filler(r)), "flush", w(filler(ln, 17)), "dump", "flush", vw(filler(ln, 23)), "dump"])
+                mk("straddle-pending-r%d-l%d" % (r, ln), ["sendres W", w(filler(r)), "sendres %d,W" % (r - 7), "flush",
+                                                          w(filler(ln, 29)), w(filler(ln, 31) + LF), "dump"])
+        mk("straddle-telnet-prompt", ["connect telnet", w(filler(N - 14)), "flush", w(b"HP:100 SP:42> "), "dump", "flush",
+                                      w(b"Name: "), vw(b"Password: "), "dump"])
+        # telnet negotiation replies produced by input processing (copy_chars), interleaved with text output
+        IAC, DO, DONT, WILL, WONT, SB, SE = 255, 253, 254, 251, 252, 250, 240
+
+        def inp(*bs):
+            return "input " + hx(bytes(bs))
+        mk("telnet-input-do", ["connect telnet", inp(IAC, DO, 3), inp(IAC, DO, 6), inp(IAC, DO, 1), w(b"hi\n")])
+        mk("telnet-input-commands", ["connect telnet", inp(IAC, 243, IAC, 244, IAC, 246, IAC, 245, IAC, 241), w(b"hi\n")])
+        mk("telnet-input-will", ["connect telnet", w(b"text\n"), "sendres W", inp(IAC, WILL, 24, IAC, WILL, 34, IAC, WILL, 3,
+                                                                                IAC, WILL, 31, IAC, DONT, 3, IAC, WONT, 34), "wready"])
+        mk("telnet-input-crlf", ["connect telnet", inp(97, 13, 10, 98, 13, 0, 13, 99, 13, 13, 10, 10), "cycle"])
+        mk("telnet-input-split", ["connect telnet", inp(IAC), inp(DO), inp(3), inp(13), inp(10), inp(IAC, SB, 34), inp(1, 0, IAC),
+                                  inp(SE)])
+        mk("telnet-input-lm-mode", ["connect telnet", inp(IAC, SB, 34, 1, 0, IAC, SE), inp(IAC, SB, 34, 1, 4, IAC, SE),
+                                    inp(IAC, WILL, 34), inp(IAC, SB, 34, 1, 1, IAC, SE)])
+        mk("telnet-input-lm-mode-global", ["connect telnet", "@2 connect telnet", "@2 " + inp(IAC, WILL, 34),
+                                           inp(IAC, SB, 34, 1, 0, IAC, SE), "@2 dump"])
+        mk("telnet-input-slc", ["connect telnet", inp(IAC, SB, 34, 3, 1, 2, 3, 4, 5, 6, 7, 8, 9, 16, 17, 18, IAC, SE),
+                                inp(IAC, SB, 34, 3, 0, 0, 0, IAC, SE),
+                                inp(IAC, SB, 34, 3, 5, 2, 65, 6, 1, 3, 7, 3, 32, 8, 128, 9, 200, 1, 0, 19, 2, 1, 1, 2, 127, IAC, SE),
+                                inp(IAC, SB, 34, 3, IAC, IAC, 2, 1, IAC, SE), inp(IAC, SB, 34, 3, IAC, SE)])
+        mk("telnet-input-sb-other", ["connect telnet", inp(IAC, SB, 24, 0, 118, 116, IAC, SE), inp(IAC, SB, 31, 0, 80, 0, 24, IAC, SE),
+                                     inp(IAC, SB, 99, 1, IAC, SE), inp(IAC, SB, 34, 9, IAC, SE), inp(IAC, SB, IAC, 1, SE)])
+        mk("telnet-input-sb-overlong", ["connect telnet", "input " + hx(bytes([IAC, SB, 34, 3] + [1, 2, 3] * 40 + [IAC, SE]))])
+        mk("telnet-input-ring-full", ["connect telnet", "sendres W,W,W,W", w(filler(N - 14)), inp(IAC, DO, 3, IAC, DO, 6),
+                                      inp(IAC, 246), "sendres 5,W", inp(IAC, WILL, 24), "dump"])
+        mk("telnet-input-straddle", ["connect telnet", w(filler(N - 14)), "flush", inp(IAC, DO, 3), inp(IAC, WILL, 34),
+                                     inp(IAC, 246), "dump"])
+        mk("telnet-input-dead", ["connect telnet", "sendres P", inp(IAC, DO, 3, IAC, DO, 6), inp(IAC, 246), "cycle"])
+        mk("telnet-input-snooped", ["connect telnet", "@2 snoop 1", inp(104, 105, IAC, DO, 3, 13, 10), inp(0, 65), "@2 dump"])
+        mk("telnet-input-other-users-pass", ["connect telnet", "@2 sendres W", "@2 " + w(b"pending\n"), "@2 flush",
+                                             inp(IAC, DO, 3), "@2 dump"])
+        mk("telnet-input-ineligible", ["connect ascii", inp(IAC, DO, 3), "@2 connect console", "@2 " + inp(IAC, DO, 3),
+                                       "@3 connect telnet", "@3 close", "@3 " + inp(IAC, DO, 3)])
         # re-entrancy: the snooper's receive_snoop (LPC) writes, destructs, raises an error while add_message is running
         mk("react-echo", ["@2 snoop 1", "@2 react e,e", w(b"seen\n"), vw(b"also\n"), w(b"plain\n"), "@2 dump"])
         mk("react-error-keeps-write-interest", ["@2 snoop 1", "@2 react x", w(b"hi\n"), "cycle"])
@@ -339,6 +398,39 @@ class C14(Prop):
             return rng.weighted([("E104", 6), ("P", 1), ("E11", 2), ("E4", 1)])      # E11/E4: EWOULDBLOCK/EINTR as plain numbers
         return k
 
+    def gen_telnet_input(self, rng):
+        """bytes a telnet client sends: negotiation, commands, sub-negotiations (LINEMODE mode / SLC triplets), line ends"""
+        IAC, DO, DONT, WILL, WONT, SB, SE = 255, 253, 254, 251, 252, 250, 240
+        out = bytearray()
+        for _ in range(rng.range(1, 5)):
+            k = rng.weighted([("neg", 10), ("cmd", 6), ("crlf", 4), ("plain", 3), ("lm", 3), ("slc", 3), ("sb", 2), ("raw", 1)])
+            if k == "neg":
+                out += bytes([IAC, rng.choice([DO, DONT, WILL, WONT]), rng.choice([3, 6, 24, 31, 34, 1, 0, rng.range(0, 255)])])
+            elif k == "cmd":
+                out += bytes([IAC, rng.choice([243, 244, 245, 246, 241, 249, IAC, rng.range(236, 255)])])
+            elif k == "crlf":
+                out += rng.choice([b"\r\n", b"\r\0", b"\r", b"\n", b"\r\r\n", b"x\r\n"])
+            elif k == "plain":
+                out += bytes(rng.range(0x20, 0x7e) for _ in range(rng.range(1, 6)))
+            elif k == "lm":
+                out += bytes([IAC, SB, 34, 1, rng.choice([0, 1, 3, 4, 5, rng.range(0, 255)]), IAC, SE])
+            elif k == "slc":
+                trip = []
+                for _ in range(rng.range(0, 8)):
+                    trip += [rng.choice([0, 1, 5, 18, 19, 30, 127, 128, 200, rng.range(0, 255)]),
+                             rng.choice([0, 1, 2, 3, 0x80, 0x81, 0x82, 0x83, 0x42, rng.range(0, 255)]),
+                             rng.choice([0, 3, 8, 31, 32, 65, 127, 128, IAC, rng.range(0, 255)])]
+                body = bytearray()
+                for b in trip:
+                    body += bytes([IAC, IAC]) if b == IAC else bytes([b])
+                out += bytes([IAC, SB, 34, 3]) + bytes(body) + (bytes([IAC, SE]) if rng.chance(5, 6) else b"")
+            elif k == "sb":
+                out += bytes([IAC, SB, rng.choice([24, 31, 34, 99])]) + bytes(rng.range(0, 254) for _ in range(rng.range(0, 6))) \
+                    + bytes([IAC, SE])
+            else:
+                out += bytes(rng.range(0, 255) for _ in range(rng.range(1, 8)))
+        return bytes(out)
+
     def gen_react(self, rng, nusers):
         toks = []
         for _ in range(rng.range(1, 4)):
@@ -361,7 +453,8 @@ class C14(Prop):
                     body.append("@%d sendres " % u + ",".join(self.gen_tok(rng, 0) for _ in range(rng.range(1, 3))))
                 body.append("@%d connect %s" % (u, kind))
         if rng.chance(1, 2):
-            offset = rng.range(1, N - 1)
+            # a third of the offsets sit just before the physical end: the next short texts straddle it
+            offset = rng.range(N - 60, N - 1) if rng.chance(1, 3) else rng.range(1, N - 1)
             body += [w(filler(offset, rng.below(1000))), "flush"]
         closed = {}
         # a third of the multi-user cases script receive_snoop reactions (re-entrant add_message)
@@ -378,7 +471,8 @@ class C14(Prop):
             k = rng.weighted([("write", 10), ("vwrite", 3), ("sendres", 8), ("flush", 3), ("eflush", 1), ("cycle", 3),
                               ("wready", 4), ("flushall", 1), ("close", 1), ("peerfin", 1), ("peerclose", 1), ("dump", 1),
                               ("snoop", 3 if nusers > 1 else 0), ("unsnoop", 1 if nusers > 1 else 0),
-                              ("react", 2 if nusers > 1 and reactive else 0)])
+                              ("react", 2 if nusers > 1 and reactive else 0),
+                              ("input", 6 if kinds[u] == "telnet" and not reactive else 0)])
             if kinds[u] == "console" and k in ("peerfin", "peerclose"):
                 k = "close"     # the console has no peer socket
             if k in ("write", "vwrite"):
@@ -397,6 +491,15 @@ class C14(Prop):
                 body.append("%ssnoop %d" % (at, rng.range(1, nusers)))
             elif k == "react":
                 body.append("%sreact %s" % (at, self.gen_react(rng, nusers)))
+            elif k == "input":
+                if u in closed:
+                    continue
+                bs = self.gen_telnet_input(rng)
+                if rng.chance(1, 3) and len(bs) > 1:       # a sequence split over two reads
+                    cut = rng.range(1, len(bs) - 1)
+                    body.append("%sinput %s" % (at, hx(bs[:cut])))
+                    bs = bs[cut:]
+                body.append("%sinput %s" % (at, hx(bs)))
             elif k in ("cycle", "wready", "flushall"):
                 body.append(k)
             else:
@@ -419,7 +522,8 @@ class C14(Prop):
              "vwrite_trailing_flush_sends": 0, "writes_on_dead_or_closed": 0,
              "lf_guard_chunk_N_minus_1": 0, "snoop_forwards": 0, "users_ascii_or_default": 0, "users_telnet": 0,
              "users_console": 0, "cases_multi_user": 0, "peerfin": 0, "peerclose": 0, "eflush_or_flushall": 0,
-             "sendres_E_keep": 0, "cases_reactive": 0, "nested_writes": 0, "lpcerr": 0, "react_destructs": 0}
+             "sendres_E_keep": 0, "cases_reactive": 0, "nested_writes": 0, "lpcerr": 0, "react_destructs": 0,
+             "input_cmds": 0, "input_driven_writes": 0, "writes_straddling_ring_end": 0}
         for c in cases:
             users = set()
             for l in c.lines:
@@ -429,6 +533,8 @@ class C14(Prop):
                     t = t[1:]
                 if t[:1] == ["connect"]:
                     h["users_" + ("telnet" if t[1] == "telnet" else "console" if t[1] == "console" else "ascii_or_default")] += 1
+                elif t[:1] == ["input"]:
+                    h["input_cmds"] += 1
                 elif t[:1] == ["peerfin"]:
                     h["peerfin"] += 1
                 elif t[:1] == ["peerclose"]:
@@ -481,8 +587,14 @@ class C14(Prop):
                         h["vwrite_trailing_flush_sends"] += 1
             full = wrapped = dead = False
             pending = 0
+            wrote = False
+            last_prod = {}
+            if any(l.split()[-2:-1] == ["input"] or l.startswith("input ") for l in c.lines):
+                nw = sum(1 for l in c.lines if l.split()[:1] in (["write"], ["vwrite"]) or l.split()[1:2] in (["write"], ["vwrite"]))
+                h["input_driven_writes"] += max(0, sum(1 for l in impl.get(c.id, []) if " wbeg " in l) - nw)
             for l in impl.get(c.id, []):
                 t = l.split()
+                utag = t[0] if t else ""
                 if t and t[0][:1] == "u" and t[0][1:].isdigit():
                     t = t[1:]
                 if not t:
@@ -505,9 +617,14 @@ class C14(Prop):
                     ln = 0 if t[2] == "-" else len(t[2]) // 2
                     h["max_msg_len"] = max(h["max_msg_len"], ln)
                     pending = None  # unknown until the next st line
+                    wrote = True
                 elif t[0] == "close":
                     h["closes"] += 1
                 elif t[0] == "st" and len(t) == 6:
+                    if wrote and last_prod.get(utag) is not None and int(t[2]) < last_prod[utag]:
+                        h["writes_straddling_ring_end"] += 1
+                    last_prod[utag] = int(t[2])
+                    wrote = False
                     pending = int(t[4])
                     if t[1] == "1":
                         h["want_set"] += 1
